@@ -530,18 +530,18 @@ func runReplay(id, path string) int {
 		return 2
 	}
 	abs, _ := filepath.Abs(path)
-	cmd := exec.Command(bin, "-replay", abs)
+	outf := filepath.Join(scratch, "replay.out.json")
+	cmd := exec.Command(bin, "-replay", abs, "-out", outf)
 	cmd.Dir = scratch
-	var out bytes.Buffer
-	cmd.Stdout = &out
 	cmd.Stderr = os.Stderr
 	if err := cmd.Run(); err != nil {
 		fmt.Fprintf(os.Stderr, "ENGINE-ERROR replay: %v\n", err)
 		return 2
 	}
+	ob, _ := os.ReadFile(outf)
 	var s hl.Summary
-	if err := json.Unmarshal(out.Bytes(), &s); err != nil {
-		fmt.Fprintf(os.Stderr, "ENGINE-ERROR replay summary: %v\n%s\n", err, out.String())
+	if err := json.Unmarshal(ob, &s); err != nil {
+		fmt.Fprintf(os.Stderr, "ENGINE-ERROR replay summary: %v\n%s\n", err, string(ob))
 		return 2
 	}
 	if len(s.Violations) == 0 {
@@ -564,6 +564,9 @@ func runWarm() int {
 	rc := 0
 	for i := range cs {
 		c := cs[i]
+		if _, err := os.Stat(filepath.Join(verifRoot, "engine", c.pkg)); err != nil {
+			continue
+		}
 		wg.Add(1)
 		go func() {
 			defer wg.Done()
